@@ -89,34 +89,16 @@ func RunOne(t *testing.T, p *Profile, runSeed uint64, w *World, replay []Decisio
 	t0 := time.Now()
 	orig := w
 	w = cloneWorld(w) // bodies may adjust the configuration between phases; the caller's copy is what a replay file records
-	synctest.Test(t, func(t *testing.T) {
-		s := NewSim(runSeed, w)
-		s.logOn = wantLog || os.Getenv("VERIF_LOG") != ""
-		res.sim = s
+	func() {
 		defer func() {
-			if r := recover(); r != nil {
-				res.EngineErr = fmt.Sprintf("%v\n%s", r, debug.Stack())
-				// let every parked goroutine go so the bubble can end
-				s.abort()
+			// a hung reconcile leaves goroutines blocked for good: the bubble ends with a deadlock panic,
+			// which is the expected end of such a run (the violation has been recorded)
+			if r := recover(); r != nil && (res.sim == nil || !res.sim.hung) {
+				panic(r)
 			}
 		}()
-		s.init()
-		s.Monitors = allMonitors()
-		if useTrace {
-			s.replaying = true
-			s.replay = replay
-		}
-		if p.Body != nil {
-			p.Body(s)
-		} else {
-			s.Setup()
-			s.Chaos()
-			if !w.Cfg.NoQuiesce {
-				s.Quiesce()
-			}
-		}
-		s.Drain()
-	})
+		runBubble(t, p, runSeed, w, replay, useTrace, wantLog, res)
+	}()
 	s := res.sim
 	res.Violations = s.Violations
 	res.Steps = s.Stats.Steps
@@ -152,6 +134,39 @@ func RunOne(t *testing.T, p *Profile, runSeed uint64, w *World, replay []Decisio
 	}
 	res.WallMs = float64(time.Since(t0).Microseconds()) / 1000
 	return res
+}
+
+func runBubble(t *testing.T, p *Profile, runSeed uint64, w *World, replay []Decision, useTrace bool, wantLog bool, res *RunResult) {
+	synctest.Test(t, func(t *testing.T) {
+		s := NewSim(runSeed, w)
+		s.logOn = wantLog || os.Getenv("VERIF_LOG") != ""
+		res.sim = s
+		defer func() {
+			if r := recover(); r != nil {
+				if !s.hung {
+					res.EngineErr = fmt.Sprintf("%v\n%s", r, debug.Stack())
+				}
+				// let every parked goroutine go so the bubble can end
+				s.abort()
+			}
+		}()
+		s.init()
+		s.Monitors = allMonitors()
+		if useTrace {
+			s.replaying = true
+			s.replay = replay
+		}
+		if p.Body != nil {
+			p.Body(s)
+		} else {
+			s.Setup()
+			s.Chaos()
+			if !w.Cfg.NoQuiesce {
+				s.Quiesce()
+			}
+		}
+		s.Drain()
+	})
 }
 
 // abort releases everything after an engine failure.
